@@ -11,6 +11,7 @@
 (*  k = "cursor" a sequence of _next_char calls / index rewinds driven by the       *)
 (*               harness along a path of the Cursor model: character delivered.   *)
 (*  k = "kv"     Keyvalues.parse on the text in several delivery forms.            *)
+(*  k = "long"   a unit repeated thousands of times: digests of the observations.   *)
 (*  k = "calls"  a script of caller operations (call, peek, push_back, expect) on   *)
 (*               one tokenizer per delivery form, with the result of each.         *)
 EXTENDS TokenizerRec, TLC, Json, IOUtils
@@ -132,7 +133,19 @@ CallsRec(r) ==
         ELSE IF r.iter.used /\ (r.iter.err.id # want.errk \/ TV(r.iter.res) # want.res) THEN Bad("calls.iter.results", want)
         ELSE Good
 
+(* ---- long repetitive inputs --------------------------------------------------------- *)
+\* pre unit^rep suf under three delivery forms; each observation is logged as a digest (exception
+\* type, cursor reads, token count, hash and tail of the token list).  Totality (a time-out of the
+\* harness' wall-clock bound arrives as an exception of its own), linear reads, one observation.
+LongRec(r) ==
+    IF \E k \in 1..Len(r.outs) : ~TotalOK(r.outs[k], r.etype)
+        THEN Bad("lex.total", [forms |-> r.outs[CHOOSE k \in 1..Len(r.outs) : ~TotalOK(r.outs[k], r.etype)].forms])
+    ELSE IF \E k \in 1..Len(r.outs) : r.outs[k].n > LinearBound(r.nchars) THEN Bad("lex.linear", LinearBound(r.nchars))
+    ELSE IF Len(r.outs) # 1 THEN Bad("lex.chunking", [forms |-> r.outs[2].forms])
+    ELSE Good
+
 Verdict(r) == CASE r.k = "lex" -> LexRec(r)
+                [] r.k = "long" -> LongRec(r)
                 [] r.k = "calls" -> CallsRec(r)
                 [] r.k = "steps" -> StepsRec(r)
                 [] r.k = "cursor" -> CursorRec(r)
